@@ -54,10 +54,10 @@ def C02_rings(c):
     # --- design level: every interleaving of the atomic-operation actions, all counter origins (wrap included)
     origins = [0, 6, 7] if quick else ALL_ORIGINS8
     kf = kf_open(KF_SPURIOUS_EMPTY) is not None
-    for script, procs in (("Script_1p2c", 3), ("Script_2p1c", 3)) + ((("Script_len", 3),) if quick else (("Script_len", 3), ("Script_2p2c", 4), ("Script_3p1c", 4))):
+    for script, procs in (("Script_1p2c", 3), ("Script_2p1c", 3)) + ((("Script_len", 3),) if quick else (("Script_len", 3), ("Script_2p2c1", 4), ("Script_3p1c", 4))):
         c.mc("MC_RingAtomic", script, ring_consts(procs=procs, origins=origins, relax=kf), subst={"Script": script}, invariants=RING_INV,
              required_actions=["MCCall"], timeout=3000, workers=10)
-    for script, procs in (("Script_1p2c", 3), ("Script_2p1c", 3), ("Script_len", 3)) + (() if quick else (("Script_2p2c", 4),)):
+    for script, procs in (("Script_1p2c", 3), ("Script_2p1c", 3), ("Script_len", 3)) + (() if quick else (("Script_2p2c1", 4),)):
         c.mc("MC_RingFullSync", script, fs_consts(procs=procs, origins=origins), subst={"Script": script},
              invariants=["InvBounds", "InvLinearizable", "InvContents", "InvLockOwner"], required_actions=["MCCall"], timeout=3000, workers=10)
     if kf:
@@ -103,10 +103,11 @@ def C13(c):
     origins = [0, 5, 7] if quick else ALL_ORIGINS8
     kf = kf_open(KF_SPURIOUS_EMPTY) is not None
     pool_inv = RING_INV + ["InvOneOwner"]
-    for script, procs in (("Script_pool2", 2), ("Script_pool3s", 3)) + (() if quick else (("Script_pool3", 3), ("Script_pool4", 4),)):
-        c.mc("MC_RingAtomic", script, ring_consts(procs=procs, origins=origins, relax=kf, prefill=True, mode="bag"), subst={"Script": script}, invariants=pool_inv,
+    for script, procs in (("Script_pool2", 2), ("Script_pool3s", 3)) + (() if quick else (("Script_pool3", 3), ("Script_pool4s", 4),)):
+        origins_ = origins if procs < 4 else [0, 7]       # (four threads: two origins, the wrap inside one of them)
+        c.mc("MC_RingAtomic", script, ring_consts(procs=procs, origins=origins_, relax=kf, prefill=True, mode="bag"), subst={"Script": script}, invariants=pool_inv,
              required_actions=["MCCall", "DeqRecedeOk", "EnqPublish"], timeout=3000, workers=10)
-        c.mc("MC_RingFullSync", script, fs_consts(procs=procs, origins=origins, prefill=True, mode="bag"), subst={"Script": script},
+        c.mc("MC_RingFullSync", script, fs_consts(procs=procs, origins=origins_, prefill=True, mode="bag"), subst={"Script": script},
              invariants=["InvBounds", "InvLinearizable", "InvContents", "InvLockOwner", "InvOneOwner"], required_actions=["MCCall"], timeout=3000, workers=10)
     if not quick:
         c.mc("MC_RingAtomic", "Script_pool2_n4", ring_consts(n=4, w=16, procs=2, origins=[0, 13, 15], relax=kf, prefill=True, mode="bag"), subst={"Script": "Script_pool2"}, invariants=pool_inv, timeout=3000, workers=10)
@@ -362,7 +363,7 @@ def C15(c):
     C15_channels(c)
     # design level: every origin of the (small) counter modulus, with and without overflow checks
     for checks in (True, False):
-        for script, procs in (("Script_resv", 2), ("Script_resv2", 2), ("Script_2p1c", 3)) + (() if quick else (("Script_2p2c", 4),)):
+        for script, procs in (("Script_resv", 2), ("Script_resv2", 2), ("Script_2p1c", 3)) + (() if quick else (("Script_2p2c1", 4),)):
             c.mc("MC_RingAtomic", "%s_%s" % (script, "chk" if checks else "nochk"), ring_consts(procs=procs, origins=ALL_ORIGINS8, relax=True, checks=checks), subst={"Script": script},
                  invariants=RING_INV, required_actions=["MCCall"], timeout=3000, workers=10)
     c.mc("MC_RingFullSync", "Script_2p1c", fs_consts(procs=3, origins=ALL_ORIGINS8), subst={"Script": "Script_2p1c"},
